@@ -12,6 +12,7 @@ import (
 	"path/filepath"
 	"sort"
 	"strings"
+	"sync"
 
 	gbuild "github.com/gopherjs/gopherjs/build"
 )
@@ -220,9 +221,9 @@ func Run(work string, thorough bool) (Result, error) {
 	add("", "cgo", false, false)
 	add("", "!cgo", false, false)
 	add("_js", "!cgo", false, false)
-	add("", "", false, true)     // imports "C"
-	add("", "cgo", false, true)  // imports "C" and requires cgo
-	add("_js", "", false, true)  // imports "C"
+	add("", "", false, true)    // imports "C"
+	add("", "cgo", false, true) // imports "C" and requires cgo
+	add("_js", "", false, true) // imports "C"
 	add("_test", "", false, false)
 	add("_js_test", "js", false, false)
 	for _, f := range files {
@@ -469,12 +470,29 @@ func RunE2E(work, repo string) (E2EResult, error) {
 	if out, err := cmd.CombinedOutput(); err != nil {
 		return r, fmt.Errorf("building the gopherjs command: %v\n%s", err, out)
 	}
-	dir := filepath.Join(work, "e2e")
-	os.MkdirAll(dir, 0o755)
-	os.WriteFile(filepath.Join(dir, "go.mod"), []byte("module c18e2e\n\ngo 1.20\n"), 0o644)
-	os.WriteFile(filepath.Join(dir, "main.go"), []byte(`package main
+	// the second module path starts with the name of a top-level directory of the standard library: its
+	// packages are user packages all the same
+	for mi, mod := range []string{"c18e2e", "unicode/xdemo"} {
+		dir := filepath.Join(work, fmt.Sprintf("e2e%d", mi))
+		os.MkdirAll(dir, 0o755)
+		os.WriteFile(filepath.Join(dir, "go.mod"), []byte("module "+mod+"\n\ngo 1.20\n"), 0o644)
+		os.WriteFile(filepath.Join(dir, "main.go"), []byte(`package main
+
+import (
+	"unicode/utf8"
+
+	"`+mod+`/helper"
+	_ "`+mod+`/polyfill"
+	_ "`+mod+`/shim"
+)
 
 var names []string
+
+func init() {
+	if utf8.RuneLen('x') != helper.One() {
+		panic("helper")
+	}
+}
 
 func reg(s string) { names = append(names, s) }
 
@@ -489,122 +507,219 @@ func main() {
 	}
 }
 `), 0o644)
-	var files []fileCase
-	n := 0
-	add := func(suffix, expr string, cgo bool) {
-		n++
-		files = append(files, fileCase{name: fmt.Sprintf("e%04d%s.go", n, suffix), expr: expr, cgo: cgo})
-	}
-	for _, s := range suffixes {
-		add(s, "", false)
-	}
-	for _, v := range vocab {
-		add("", v, false)
-		add("", "!"+v, false)
-	}
-	for rel := 1; rel <= 30; rel++ {
-		add("", fmt.Sprintf("go1.%d", rel), false)
-		add("", fmt.Sprintf("!go1.%d", rel), false)
-	}
-	add("", "t1 && t2", false)
-	add("", "t1 || netgo", false)
-	add("_js", "!cgo && gopherjs", false)
-	add("", "", true)
-	add("_test", "", false)
-	for _, f := range files {
-		var b strings.Builder
-		if f.expr != "" {
-			b.WriteString("//go:build " + f.expr + "\n\n")
+		var files []fileCase
+		n := 0
+		add := func(suffix, expr string, cgo bool) {
+			n++
+			files = append(files, fileCase{name: fmt.Sprintf("e%04d%s.go", n, suffix), expr: expr, cgo: cgo})
 		}
-		b.WriteString("package main\n")
-		if f.cgo {
-			b.WriteString("\nimport \"C\"\n")
+		for _, s := range suffixes {
+			add(s, "", false)
 		}
-		b.WriteString("\nfunc init() { reg(\"" + f.name + "\") }\n")
-		os.WriteFile(filepath.Join(dir, f.name), []byte(b.String()), 0o644)
-	}
-	incs := []string{"a.inc.js", "b_linux.inc.js", "jquery.min.inc.js", "helper_test.inc.js"}
-	for _, n := range incs {
-		os.WriteFile(filepath.Join(dir, n), []byte("console.log(\"inc:"+n+"\");\n"), 0o644)
-	}
-	os.WriteFile(filepath.Join(dir, "_hidden.inc.js"), []byte("console.log(\"inc:_hidden.inc.js\");\n"), 0o644)
-	r.Files = len(files)
-	type run struct {
-		tags string
-		env  hostEnv
-	}
-	runs := []run{
-		{"", hostEnvs[0]}, {"t1", hostEnvs[0]}, {"t1 t2", hostEnvs[0]}, {"  t2   linux ", hostEnvs[0]}, {"gopherjs t1", hostEnvs[0]}, {"netgo", hostEnvs[0]},
-		{"t1", hostEnvs[1]}, {"", hostEnvs[3]}, {"t2", hostEnvs[4]}, {"", hostEnvs[5]},
-	}
-	for ri, rn := range runs {
-		r.Runs++
-		id := fmt.Sprintf("C18/e2e/tags=%s/env=%s", strings.Join(strings.Fields(rn.tags), ","), rn.env.name)
-		out := filepath.Join(work, fmt.Sprintf("e2e_out%d.js", ri))
-		args := []string{"build", "-o", out}
-		if rn.tags != "" {
-			args = append(args, "--tags", rn.tags)
+		for _, v := range vocab {
+			add("", v, false)
+			add("", "!"+v, false)
 		}
-		args = append(args, ".")
-		c := exec.Command(bin, args...)
-		c.Dir = dir
-		env := []string{}
-		for _, kv := range os.Environ() {
-			k := kv[:strings.IndexByte(kv, '=')]
-			if _, managed := rn.env.set[k]; !managed {
-				env = append(env, kv)
-			}
+		for rel := 1; rel <= 30; rel++ {
+			add("", fmt.Sprintf("go1.%d", rel), false)
+			add("", fmt.Sprintf("!go1.%d", rel), false)
 		}
-		for k, v := range rn.env.set {
-			if v != "\x00" {
-				env = append(env, k+"="+v)
-			}
+		// tags made of every character class a tag may hold
+		for _, t := range dottedTags {
+			add("", t, false)
+			add("", "!"+t, false)
 		}
-		c.Env = append(env, "GOPHERJS_SKIP_VERSION_CHECK=true")
-		if o, err := c.CombinedOutput(); err != nil {
-			r.Violations = append(r.Violations, id+"/build the command-line tool fails to build the package: "+strings.TrimSpace(string(o)))
-			continue
-		}
-		o, err := exec.Command("node", out).CombinedOutput()
-		if err != nil {
-			r.Violations = append(r.Violations, id+"/run the program fails under Node: "+strings.TrimSpace(string(o)))
-			continue
-		}
-		got := map[string]bool{}
-		for _, l := range strings.Split(string(o), "\n") {
-			if strings.HasPrefix(l, "file:") || strings.HasPrefix(l, "inc:") {
-				got[strings.TrimSpace(l)] = true
-			}
-		}
-		user := map[string]bool{}
-		for _, t := range strings.Fields(rn.tags) {
-			user[t] = true
-		}
+		add("", "rel && !rel.2", false)
+		add("", "t1 && t2", false)
+		add("", "t1 || netgo", false)
+		add("_js", "!cgo && gopherjs", false)
+		add("", "", true)
+		add("_test", "", false)
 		for _, f := range files {
-			r.Decisions++
-			want := nameOK(f.name, "js", "ecmascript", user)
-			if want && f.expr != "" {
-				x, err := constraint.Parse("//go:build " + f.expr)
-				if err != nil {
-					return r, err
-				}
-				want = x.Eval(func(tag string) bool { return tagTrue(tag, "js", "ecmascript", user) })
+			var b strings.Builder
+			if f.expr != "" {
+				b.WriteString("//go:build " + f.expr + "\n\n")
 			}
-			if f.cgo || strings.HasSuffix(f.name, "_test.go") {
-				want = false
+			b.WriteString("package main\n")
+			if f.cgo {
+				b.WriteString("\nimport \"C\"\n")
 			}
-			if got["file:"+f.name] != want {
-				r.Violations = append(r.Violations, fmt.Sprintf("%s/file=%s[%s] took part in the program: %v, documented rule says %v", id, f.name, strings.ReplaceAll(f.expr, " ", ""), got["file:"+f.name], want))
-			}
+			b.WriteString("\nfunc init() { reg(\"" + f.name + "\") }\n")
+			os.WriteFile(filepath.Join(dir, f.name), []byte(b.String()), 0o644)
 		}
+		incs := []string{"a.inc.js", "b_linux.inc.js", "jquery.min.inc.js", "helper_test.inc.js"}
 		for _, n := range incs {
-			if !got["inc:"+n] {
-				r.Violations = append(r.Violations, id+"/inc="+n+" the .inc.js file of the package directory is not part of the program")
+			os.WriteFile(filepath.Join(dir, n), []byte("console.log(\"inc:"+n+"\");\n"), 0o644)
+		}
+		os.WriteFile(filepath.Join(dir, "_hidden.inc.js"), []byte("console.log(\"inc:_hidden.inc.js\");\n"), 0o644)
+		// packages of the same module: one that is used, one imported for its side effects that holds nothing but
+		// a package clause and a .inc.js file, one whose declarations are all unused
+		var subFiles []fileCase
+		for _, c := range []fileCase{{name: "h_plain.go"}, {name: "h_wasm.go"}, {name: "h_js.go"}, {name: "h_js_wasm.go"}, {name: "h_ecmascript.go"}, {name: "h_js_ecmascript.go"}, {name: "h_linux.go"},
+			{name: "x1.go", expr: "wasm"}, {name: "x2.go", expr: "js && wasm"}, {name: "x3.go", expr: "!wasm"}, {name: "x4.go", expr: "ecmascript"}, {name: "x5.go", expr: "gopherjs"}, {name: "x6.go", expr: "rel.2"}, {name: "x7.go", expr: "!rel.2"}, {name: "x8.go", expr: "js && !ecmascript"}} {
+			subFiles = append(subFiles, c)
+		}
+		os.MkdirAll(filepath.Join(dir, "helper"), 0o755)
+		os.MkdirAll(filepath.Join(dir, "polyfill"), 0o755)
+		os.MkdirAll(filepath.Join(dir, "shim"), 0o755)
+		os.WriteFile(filepath.Join(dir, "helper", "helper.go"), []byte("package helper\n\nfunc One() int { return 1 }\n"), 0o644)
+		for _, f := range subFiles {
+			src := ""
+			if f.expr != "" {
+				src = "//go:build " + f.expr + "\n\n"
 			}
+			src += "package helper\n\nfunc init() { println(\"file:helper/" + f.name + "\") }\n"
+			os.WriteFile(filepath.Join(dir, "helper", f.name), []byte(src), 0o644)
 		}
-		if got["inc:_hidden.inc.js"] {
-			r.Violations = append(r.Violations, id+"/inc=_hidden.inc.js a hidden .inc.js file is part of the program")
+		os.WriteFile(filepath.Join(dir, "polyfill", "doc.go"), []byte("package polyfill\n"), 0o644)
+		os.WriteFile(filepath.Join(dir, "shim", "shim.go"), []byte("package shim\n\nfunc Unused() int { return 1 }\n"), 0o644)
+		subIncs := []string{"helper/helper.inc.js", "polyfill/polyfill.inc.js", "shim/shim.inc.js"}
+		for _, n := range subIncs {
+			os.WriteFile(filepath.Join(dir, n), []byte("console.log(\"inc:"+n+"\");\n"), 0o644)
 		}
+		os.WriteFile(filepath.Join(dir, "polyfill", "_draft.inc.js"), []byte("console.log(\"inc:polyfill/_draft.inc.js\");\n"), 0o644)
+		r.Files += len(files) + len(subFiles)
+		type run struct {
+			tags string
+			env  hostEnv
+		}
+		runs := []run{
+			{"", hostEnvs[0]}, {"t1", hostEnvs[0]}, {"t1 t2", hostEnvs[0]}, {"  t2   linux ", hostEnvs[0]}, {"gopherjs t1", hostEnvs[0]}, {"netgo", hostEnvs[0]},
+			{"t1", hostEnvs[1]}, {"", hostEnvs[3]}, {"t2", hostEnvs[4]}, {"", hostEnvs[5]},
+			{"rel.2 extra", hostEnvs[0]}, {"rel 2 a_b x.y.z v2.0_beta", hostEnvs[0]},
+		}
+		if mi > 0 {
+			runs = []run{{"", hostEnvs[0]}, {"t1 rel.2", hostEnvs[0]}}
+		}
+		// the runs are independent builds: several at a time
+		var wg sync.WaitGroup
+		var mu sync.Mutex
+		var firstErr error
+		outer := &r
+		sem := make(chan struct{}, 6)
+		for ri, rn := range runs {
+			ri, rn := ri, rn
+			wg.Add(1)
+			sem <- struct{}{}
+			go func() {
+				defer wg.Done()
+				defer func() { <-sem }()
+				var r E2EResult
+				defer func() {
+					mu.Lock()
+					outer.Runs += r.Runs
+					outer.Decisions += r.Decisions
+					outer.Violations = append(outer.Violations, r.Violations...)
+					mu.Unlock()
+				}()
+				r.Runs++
+				id := fmt.Sprintf("C18/e2e/tags=%s/env=%s", strings.Join(strings.Fields(rn.tags), ","), rn.env.name)
+				if mi > 0 {
+					id = fmt.Sprintf("C18/e2e/module=%s/tags=%s/env=%s", mod, strings.Join(strings.Fields(rn.tags), ","), rn.env.name)
+				}
+				out := filepath.Join(work, fmt.Sprintf("e2e_out%d_%d.js", mi, ri))
+				args := []string{"build", "-o", out}
+				if rn.tags != "" {
+					args = append(args, "--tags", rn.tags)
+				}
+				args = append(args, ".")
+				c := exec.Command(bin, args...)
+				c.Dir = dir
+				env := []string{}
+				for _, kv := range os.Environ() {
+					k := kv[:strings.IndexByte(kv, '=')]
+					if _, managed := rn.env.set[k]; !managed {
+						env = append(env, kv)
+					}
+				}
+				for k, v := range rn.env.set {
+					if v != "\x00" {
+						env = append(env, k+"="+v)
+					}
+				}
+				c.Env = append(env, "GOPHERJS_SKIP_VERSION_CHECK=true")
+				if o, err := c.CombinedOutput(); err != nil {
+					r.Violations = append(r.Violations, id+"/build the command-line tool fails to build the package: "+strings.TrimSpace(string(o)))
+					return
+				}
+				o, err := exec.Command("node", out).CombinedOutput()
+				if err != nil {
+					r.Violations = append(r.Violations, id+"/run the program fails under Node: "+strings.TrimSpace(string(o)))
+					return
+				}
+				got := map[string]bool{}
+				for _, l := range strings.Split(string(o), "\n") {
+					if strings.HasPrefix(l, "file:") || strings.HasPrefix(l, "inc:") {
+						got[strings.TrimSpace(l)] = true
+					}
+				}
+				user := map[string]bool{}
+				for _, t := range strings.Fields(rn.tags) {
+					user[t] = true
+				}
+				for _, f := range files {
+					r.Decisions++
+					want := nameOK(f.name, "js", "ecmascript", user)
+					if want && f.expr != "" {
+						x, err := constraint.Parse("//go:build " + f.expr)
+						if err != nil {
+							mu.Lock()
+							firstErr = err
+							mu.Unlock()
+							return
+						}
+						want = x.Eval(func(tag string) bool { return tagTrue(tag, "js", "ecmascript", user) })
+					}
+					if f.cgo || strings.HasSuffix(f.name, "_test.go") {
+						want = false
+					}
+					if got["file:"+f.name] != want {
+						r.Violations = append(r.Violations, fmt.Sprintf("%s/file=%s[%s] took part in the program: %v, documented rule says %v", id, f.name, strings.ReplaceAll(f.expr, " ", ""), got["file:"+f.name], want))
+					}
+				}
+				for _, f := range subFiles {
+					r.Decisions++
+					want := nameOK(f.name, "js", "ecmascript", user)
+					if want && f.expr != "" {
+						x, err := constraint.Parse("//go:build " + f.expr)
+						if err != nil {
+							mu.Lock()
+							firstErr = err
+							mu.Unlock()
+							return
+						}
+						want = x.Eval(func(tag string) bool { return tagTrue(tag, "js", "ecmascript", user) })
+					}
+					if got["file:helper/"+f.name] != want {
+						r.Violations = append(r.Violations, fmt.Sprintf("%s/file=helper/%s[%s] took part in the program: %v, documented rule says %v", id, f.name, strings.ReplaceAll(f.expr, " ", ""), got["file:helper/"+f.name], want))
+					}
+				}
+				for _, n := range subIncs {
+					if !got["inc:"+n] {
+						r.Violations = append(r.Violations, id+"/inc="+n+" the .inc.js file of an imported package is not part of the program")
+					}
+				}
+				if got["inc:polyfill/_draft.inc.js"] {
+					r.Violations = append(r.Violations, id+"/inc=polyfill/_draft.inc.js a hidden .inc.js file is part of the program")
+				}
+				for _, n := range incs {
+					if !got["inc:"+n] {
+						r.Violations = append(r.Violations, id+"/inc="+n+" the .inc.js file of the package directory is not part of the program")
+					}
+				}
+				if got["inc:_hidden.inc.js"] {
+					r.Violations = append(r.Violations, id+"/inc=_hidden.inc.js a hidden .inc.js file is part of the program")
+				}
+			}()
+		}
+		wg.Wait()
+		if firstErr != nil {
+			return r, firstErr
+		}
+		sort.Strings(r.Violations)
 	}
 	return r, nil
 }
+
+// dottedTags: user tags holding every character class the build-constraint syntax allows in a tag.
+var dottedTags = []string{"rel.2", "rel", "2", "a_b", "x.y.z", "v2.0_beta", "extra"}
